@@ -29,6 +29,10 @@ pub fn force(p: Option<P>) {
     FORCED.with(|c| c.set(p));
 }
 
+pub fn forced() -> Option<P> {
+    FORCED.with(|c| c.get())
+}
+
 pub fn pname(p: P) -> String {
     format!("{:?}", p).to_lowercase()
 }
